@@ -649,6 +649,8 @@ def _min(I, t, other=None, keepdim=False, dim=None):
     vals = ST(t.shape[:d] + t.shape[d + 1:], lambda *idx: m(*[to_z3(i) for i in idx]), "float")
     idxs = ST(t.shape[:d] + t.shape[d + 1:], lambda *idx: w(*[to_z3(i) for i in idx]), "long")
     I.ex.ghost.setdefault("mins", []).append({"m": m, "w": w, "t": t, "d": d, "lb": lb, "att": att})
+    if keepdim:
+        vals, idxs = _unsqueeze(I, vals, d), _unsqueeze(I, idxs, d)
     return ct.MinMaxResult(vals, idxs)
 
 
